@@ -42,9 +42,9 @@ func init() {
 			return []mon.Family{
 				{Name: "cold-start", N: 1, Serial: true, Run: c10Cold},
 				{Name: "fields-small", N: 13, Run: c10FieldsSmall},
-				{Name: "fields-large", N: 20 * c.Pick(100, 50000), Run: c10FieldsLarge},
+				{Name: "fields-large", Env: 10, N: 20 * c.Pick(100, 50000), Run: c10FieldsLarge},
 				{Name: "order-all-pairs", N: (1 << uint(hp+1)) * 2, Run: func(w *mon.W, idx int) { c10OrderAll(w, idx, hp) }},
-				{Name: "order-sampled", N: 20 * c.Pick(250, 100000), Run: c10OrderSampled},
+				{Name: "order-sampled", Env: 10, N: 20 * c.Pick(250, 100000), Run: c10OrderSampled},
 			}
 		},
 	})
